@@ -20,10 +20,11 @@ from . import joinrules as jr
 from .c01 import _fresh_vector_expr
 
 MATH_FUNCS = ("vector.Vector._elementwise_operation", "vector.Vector._elementwise_compare", "vector._Date._elementwise_compare",
-              "vector.Vector.__radd__", "vector._Date.__add__")
+              "vector.Vector.__radd__", "vector._Date.__add__", "table.Table._elementwise_compare")
 KEEP_FUNCS = {
     "vector.Vector.to_object": "self._name", "vector.Vector.cast": "self._name", "vector.Vector.fillna": "self._name",
     "vector.Vector.sort_by": "self._name", "vector.Vector._unary_operation": "self._name", "vector.Vector.__invert__": "self._name",
+    "vector.Vector.dropna": "self._name",
 }
 
 
@@ -41,6 +42,9 @@ def run(ctx) -> None:
     ctx.rule("g.aggregate-window", "key outputs are uniquify(stored name; 'key' only when unnamed); aggregate outputs uniquify(<sanitised>_<function>); apply "
                                    "outputs uniquify(key); uniquify returns an unused name and records it; aggregate and window agree", 10)
     ctx.rule("h.table-selections", "row slices / masks / selections and sort_by rebuild each column under its source name", 3)
+    ctx.rule("i.table-own-name", "a table's OWN name: every row selection of Table.__getitem__ (slice, mask, mask list, index vector) and "
+                                 "every result of Table.sort_by is built with name=self._name; table << rows and reflected forms put the "
+                                 "column names back (each fresh column named after the column of self at its position)", 5)
     ctx.section("math", _math, ctx)
     ctx.section("structure", _structure, ctx)
     ctx.section("writes", _writes, ctx)
@@ -50,8 +54,6 @@ def run(ctx) -> None:
     ctx.section("groups", _groups, ctx)
     ctx.section("sanitiser", _sanitiser_stateless, ctx)
     ctx.section("selections", _selections, ctx)
-    ctx.info("Table == Table builds its result with positional arguments Vector(data, False, bool, True): the comparison TABLE is named "
-             "<class 'bool'>; the statement speaks of comparisons between vectors - reported as information only")
     ctx.not_decided.append("the concrete suffix numbers chosen by uniquify")
 
 
@@ -382,6 +384,87 @@ def _selections(ctx) -> None:
                     n_rows += 1
     ctx.ob("h.table-selections", g, "row-selection", n_rows >= 1, f"{n_rows} row selections index each column (name kept by Vector.__getitem__)",
            g.node, message="row selections no longer index each column with the key (which keeps the column's name)")
+    # the table's own name
+    from ..sites2 import all_sites2
+    GS = ("param", g.params[0])
+    k = 0
+    for st in all_sites2(prog):
+        if st.top is not g or st.kind != "Vector" or st.data is None:
+            continue
+        d = st.data
+        d = d[2][0] if d[0] == "call" and d[1] in (("name", "tuple"), ("name", "list")) and len(d[2]) == 1 else d
+        if not (d[0] == "obj" and gi_is_row_selection(st.it, d, gcols)):
+            continue
+        k += 1
+        ctx.ob("i.table-own-name", g, f"row-selection:{k}", st.name == ("attr", GS, "_name"), "selected rows keep the table's name", st.node,
+               message=f"Table.__getitem__: `{st.sh(st.call, 70)}` is built "
+                       + (f"with name=`{st.sh(st.name, 30)}`" if st.name_given else "without a name")
+                       + ": a named table loses its name through this selection (t[1:] and t.copy() keep it)")
+    FS = ("param", f.params[0])
+    for j, r in enumerate(rets):
+        t = r.term
+        ctx.ob("i.table-own-name", f, f"sort_by:{j + 1}", t[0] == "call" and kw(t, "name") == ("attr", FS, "_name"),
+               "the sorted table keeps the table's name", r.node,
+               message=f"Table.sort_by: `return {show(t, it)[:60]}` does not pass name=self._name: a named table loses its name by sorting")
+    # table << rows, rows << table: the fresh columns are named after self's columns, position by position
+    for q in ("table.Table.__lshift__", "table.Table.__rlshift__"):
+        h = prog.functions.get(q)
+        if h is None:
+            ctx.ob("i.table-own-name", g, f"defined:{q}", False, "", g.node,
+                   message=f"{q} is not defined: Python falls back to Vector's version, which treats the table's column vectors as cells")
+            continue
+        hi = SInterp(prog, h)
+        HS = ("param", h.params[0])
+        hcols = ("call", ("attr", HS, "cols"), (), ())
+        stores = [e for e in hi.events if e.kind == "store" and e.term[0] == "attr" and e.term[2] == "_name"]
+        okn = bool(stores) and all(_names_after_self(hi, e, hcols) for e in stores)
+        hrets = [e for e in hi.events if e.kind == "return" and e.depth == 0]
+        # every returned table went through the renaming (same path conditions as a renaming loop)
+        okn = okn and all(any(tuple(e.conds[:len(r.conds)]) == tuple(r.conds) for e in stores) for r in hrets)
+        ctx.ob("i.table-own-name", h, "columns-renamed", okn and bool(hrets), "appended / prepended rows keep the column names", h.node,
+               message=f"{q}: the result columns (fresh vectors from column << cells) are not named after self's columns position by "
+                       f"position: the result has no column names")
+
+
+    # vector (op) table through Vector's own kernel (typed vectors: Python does not try Table's reflected operator first)
+    vk = prog.func("vector.Vector._elementwise_operation")
+    vi = SInterp(prog, vk)
+    OT = ("param", vk.params[1])
+    OTd = ("call", ("attr", ("param", vk.params[0]), "_check_duplicate"), (OT,), ())     # other, copied if it is self
+    stores = [e for e in vi.events if e.kind == "store" and e.term[0] == "attr" and e.term[2] == "_name"]
+    ctx.ob("i.table-own-name", vk, "vector-op-table",
+           bool(stores) and all(any(_names_after_self(vi, e, ("call", ("attr", o, "cols"), (), ())) for o in (OT, OTd)) for e in stores),
+           "vector (op) table names each result column after the table's column", vk.node,
+           message="Vector._elementwise_operation (table on the right): the result columns are not named after the table's columns position by "
+                   "position: int_vector + table comes back unnamed while bool_vector + table (Table.__radd__) keeps the names")
+
+
+def gi_is_row_selection(it, d, gcols) -> bool:
+    """(x[key] for x in self._underlying)"""
+    o = it.objs[d[1]]
+    if o.kind not in ("genexp", "listcomp"):
+        return False
+    evs = [e for e in it.events if e.kind == "elem" and e.term == d]
+    if len(evs) != 1:
+        return False
+    e = evs[0]
+    lps = [L for L in e.loops if L not in o.loops]
+    return len(lps) == 1 and it.loops[lps[0]].iter == gcols and e.value[0] == "sub" and e.value[1] == ("elem", gcols, lps[0])
+
+
+def _names_after_self(it, e, hcols) -> bool:
+    """store  <new column k>._name = <column k of self>._name  inside one loop pairing self.cols() with the new columns"""
+    tgt, val = e.term, e.value
+    if val is None or val[0] != "attr" or val[2] != "_name":
+        return False
+    src = val[1]
+    if src[0] != "elem" or not e.loops:
+        return False
+    lp = it.loops[src[2]] if src[2] in it.loops else None
+    if lp is None:
+        return False
+    doms = tuple(lp.domain[1]) if lp.domain is not None and lp.domain[0] == "tuple" else (lp.iter,)
+    return hcols in doms and src[1] == hcols and tgt[1][0] == "elem" and tgt[1][2] == src[2] and tgt[1] != src
 
 
 _V, _T = "vector", "table"
@@ -390,6 +473,23 @@ MUTANTS = [
          old="		# (an empty result is a table with zero rows that still has every column, under its name)\n",
          new="		if all(len(col) == 0 for col in result_data):\n			return Table(())\n", rules=["f.joins"],
          desc="the defect repaired by fix eb6f046"),
+    dict(id="table-compare-stale-positionals", module=_T,
+         old="		return Vector(tuple(op(x, other) for x in self.cols()))", new="		return Vector(tuple(op(x, other) for x in self.cols()), False, bool, True)",
+         rules=["a.math-unnamed"], desc="reverts fix 0387431: (t > 2).name is <class 'bool'>"),
+    dict(id="dropna-drops-name", module=_V, old="			name=self._name, as_row=self._display_as_row)\n\n	def isna", new="			as_row=self._display_as_row)\n\n	def isna",
+         rules=["b.structure-keeps"], desc="reverts fix abbe1df"),
+    dict(id="table-mask-drops-own-name", module=_T, count=4, nth=0, old="				dtype = self._dtype,\n				name=self._name\n			)",
+         new="				dtype = self._dtype\n			)", rules=["i.table-own-name"], desc="reverts fix bf695ed for the mask branch"),
+    dict(id="sort-by-drops-own-name", module=_T, old="		return Table(new_cols, name=self._name)\n\n	def peek", new="		return Table(new_cols)\n\n	def peek",
+         rules=["i.table-own-name"]),
+    dict(id="lshift-columns-unnamed", module=_T,
+         old="		return self._named_like_self(tuple(x << y for x, y in zip(self.cols(), other, strict=True)))",
+         new="		return Vector(tuple(x << y for x, y in zip(self.cols(), other, strict=True)))", rules=["i.table-own-name"],
+         desc="reverts fix ca61f9e for the row form: (t << rows) has no column names"),
+    dict(id="table-rlshift-removed", module=_T, old="	def __rlshift__(self, other):", new="	def _unused_rlshift(self, other):", rules=["i.table-own-name"],
+         desc="reverts fix 2d82ad0: rows << table runs Vector.__rlshift__ over the column vectors"),
+    dict(id="vector-op-table-unnamed", module=_V, old="			for orig_col, result_col in zip(other.cols(), result_cols):\n				result_col._name = orig_col._name\n				result_col._wild = orig_col._wild\n			return other.copy(result_cols)",
+         new="			return other.copy(result_cols)", rules=["i.table-own-name"], desc="reverts fix d8d6f53"),
     dict(id="arithmetic-keeps-name", module=_V, count=1,
          old="			return Vector(result_values,\n							dtype=result_dtype,\n							name=None,\n							as_row=self._display_as_row)\n		except TypeError as e:",
          new="			return Vector(result_values,\n							dtype=result_dtype,\n							name=self._name,\n							as_row=self._display_as_row)\n		except TypeError as e:",
@@ -418,8 +518,8 @@ MUTANTS = [
          rules=["e.construction"]),
     dict(id="rshift-renames-source", module=_T, old="					col = values.copy()  # Copy to prevent aliasing", new="					col = values",
          rules=["e.construction"]),
-    dict(id="sort-by-drops-names", module=_T, old="			new_cols.append(Vector(new_data, dtype=col._dtype, name=col._name))\n\n		return Table(new_cols)",
-         new="			new_cols.append(Vector(new_data, dtype=col._dtype))\n\n		return Table(new_cols)", rules=["h.table-selections"]),
+    dict(id="sort-by-drops-names", module=_T, old="			new_cols.append(Vector(new_data, dtype=col._dtype, name=col._name))\n\n		return Table(new_cols, name=self._name)",
+         new="			new_cols.append(Vector(new_data, dtype=col._dtype))\n\n		return Table(new_cols, name=self._name)", rules=["h.table-selections"]),
     dict(id="cast-drops-name", module=_V, old="		return Vector(tuple(out), dtype=new_dtype, name=self._name, as_row=self._display_as_row)",
          new="		return Vector(tuple(out), dtype=new_dtype, as_row=self._display_as_row)", rules=["b.structure-keeps"]),
     dict(id="table-scalar-names-shifted", module=_T, old="				result_col._name = orig_col._name\n				result_col._wild = orig_col._wild",
